@@ -127,7 +127,7 @@ func TopFunc2(fn *ssa.Function) *ssa.Function {
 // extractedInto returns the single caller of a new unexported helper, nil when fn is a reviewed function or has no
 // unique caller.
 func extractedInto(fn *ssa.Function) *ssa.Function {
-	if curProg == nil || len(reviewedFuncs) == 0 || fn == nil || fn.Parent() != nil || reviewedFuncs[FuncName(fn)] || !curProg.isRepoFunc(fn) {
+	if curProg == nil || len(reviewedFuncs) == 0 || fn == nil || fn.Parent() != nil || isReviewedFunc(FuncName(fn)) || !curProg.isRepoFunc(fn) {
 		return nil
 	}
 	if n := fn.Name(); n == "" || (n[0] >= 'A' && n[0] <= 'Z') || n == "init" {
@@ -1474,3 +1474,5 @@ func condValues(fn *ssa.Function) []ssa.Value {
 	}
 	return out
 }
+
+func isReviewedFunc(name string) bool { _, ok := reviewedFuncs[name]; return ok }
